@@ -19,11 +19,14 @@ pub(crate) struct VerifiableEncryptionDecryptionBuilder<'a> {
     c1: G1Projective,
     c2: G1Projective,
     statement: &'a VerifiableEncryptionDecryptionStatement<G1Projective>,
-    b: Scalar,
     r: Scalar,
+    /// The ElGamal encryption randomness, independent of every Schnorr nonce
+    k: Scalar,
     message_bytes: [u8; 32],
     byte_blinders: [Scalar; 32],
     blinder_blinders: [Scalar; 32],
+    /// Schnorr nonces of the bytes, independent of the byte ciphertexts' randomness
+    byte_nonces: [Scalar; 32],
     byte_ciphertext: Ciphertext,
     arbitrary_data_ciphertext: Vec<u8>,
 }
@@ -54,15 +57,16 @@ impl<S: ShortGroupSignatureScheme> PresentationBuilder<S>
             8,
         )
         .expect("range proof to work");
-        let blinder_proof = self.r + challenge * self.b;
+        let blinder_proof = self.r + challenge * self.k;
         let mut byte_proofs = [ByteProof::default(); 32];
-        for ((byte_proof, byte_blinder), (message_byte, blinder_blinder)) in byte_proofs
+        for (((byte_proof, byte_blinder), byte_nonce), (message_byte, blinder_blinder)) in byte_proofs
             .iter_mut()
             .zip(self.byte_blinders.iter())
+            .zip(self.byte_nonces.iter())
             .zip(self.message_bytes.iter().zip(self.blinder_blinders.iter()))
         {
             *byte_proof = ByteProof {
-                message: byte_blinder + challenge * Scalar::from(*message_byte),
+                message: byte_nonce + challenge * Scalar::from(*message_byte),
                 blinder: blinder_blinder + challenge * byte_blinder,
             };
         }
@@ -91,20 +95,27 @@ impl<'a> VerifiableEncryptionDecryptionBuilder<'a> {
         transcript: &mut Transcript,
     ) -> CredxResult<Self> {
         let r = Scalar::random(&mut rng);
+        // `b` is the claim's shared Schnorr nonce: it is published as part of the response b + c * m,
+        // so it must not double as the encryption randomness
+        let k = Scalar::random(&mut rng);
 
-        let c1 = G1Projective::GENERATOR * b;
-        let c2 = statement.message_generator * msg + statement.encryption_key.0 * b;
+        let c1 = G1Projective::GENERATOR * k;
+        let c2 = statement.message_generator * msg + statement.encryption_key.0 * k;
 
         let r1 = G1Projective::GENERATOR * r;
         let r2 = statement.message_generator * b + statement.encryption_key.0 * r;
 
         let message_bytes = msg.to_be_bytes();
-        // The idea is for the byte blinders to sum to `b`
+        // The idea is for the byte blinders to sum to `k`
         // Need to generate `message_bytes.len() - 1` random scalars
-        // and the last one will be `b` - sum(all others)
+        // and the last one will be `k` - sum(all others)
         let mut byte_ciphertext = Ciphertext::default();
         let mut byte_blinders = [Scalar::ZERO; 32];
         let mut blinder_blinders = [Scalar::ZERO; 32];
+        let mut byte_nonces = [Scalar::ZERO; 32];
+        for n in byte_nonces.iter_mut() {
+            *n = Scalar::random(&mut rng);
+        }
         let mut sum = Scalar::ZERO;
 
         let shift = Scalar::from(256u16);
@@ -121,7 +132,7 @@ impl<'a> VerifiableEncryptionDecryptionBuilder<'a> {
                 + statement.encryption_key.0 * blinder;
         }
         blinder_blinders[31] = Scalar::random(&mut rng);
-        byte_blinders[31] = b - sum;
+        byte_blinders[31] = k - sum;
         byte_ciphertext.c1[31] = G1Projective::GENERATOR * byte_blinders[31];
         byte_ciphertext.c2[31] = statement.message_generator * Scalar::from(message_bytes[31])
             + statement.encryption_key.0 * byte_blinders[31];
@@ -146,7 +157,7 @@ impl<'a> VerifiableEncryptionDecryptionBuilder<'a> {
                 byte_ciphertext.c2[i].to_compressed().as_slice(),
             );
             let inner_r1 = G1Projective::GENERATOR * blinder_blinders[i];
-            let inner_r2 = statement.message_generator * byte_blinders[i]
+            let inner_r2 = statement.message_generator * byte_nonces[i]
                 + statement.encryption_key.0 * blinder_blinders[i];
 
             transcript.append_message(b"byte_proof_r1", inner_r1.to_compressed().as_slice());
@@ -156,7 +167,7 @@ impl<'a> VerifiableEncryptionDecryptionBuilder<'a> {
         let arbitrary_data = message.to_text();
         let mut aes_transcript =
             Transcript::new(b"PresentationEncryptionDecryption arbitrary data derive aes key");
-        let input = statement.encryption_key.0 * b;
+        let input = statement.encryption_key.0 * k;
         aes_transcript.append_message(b"key ikm", input.to_compressed().as_slice());
         let mut okm = [0u8; 32];
         aes_transcript.challenge_bytes(b"aes key", &mut okm);
@@ -186,11 +197,12 @@ impl<'a> VerifiableEncryptionDecryptionBuilder<'a> {
             c1,
             c2,
             statement,
-            b,
             r,
+            k,
             message_bytes,
             byte_blinders,
             blinder_blinders,
+            byte_nonces,
             byte_ciphertext,
             arbitrary_data_ciphertext,
         })
